@@ -12,6 +12,7 @@ CONSTANTS
   EmptyRaises = FALSE
   Emit = FALSE
   Objs = {1}
+  OFields = {"src", "bin"}
   Rich = 2
   SharedMemo = FALSE
   EmitObj = TRUE
